@@ -27,14 +27,19 @@ def describe (r : Res (Interaction × Rat)) : String :=
 
 /-! ### kind `qmcctor`: a sequence of events on ONE sampler (model: QmcModel/QmcCtor.lean)
 
-`qmcctor <nvars> <event>…` with events `<variant>:<mat>:<vars>` (a `make_*interaction*` call),
-`step:<heatbath 0|1>` (time steps; the only field they touch is the lazily built heat-bath table),
-`clone:<continue on the clone 0|1>`. One output token per event:
-`A|E:<#bonds>:<offset>:<has_cluster_edges>:<breaks_ising_symmetry>:<non_const_diags>:<bond_weights present>`
-after a call (`P` = panic), `s:<fields>` after time steps, `k:<fields>` for the clone. -/
+`qmcctor <nvars> <do_loop_updates> <event>…` with events `<variant>:<mat>:<vars>` (a `make_*interaction*`
+call), `hb:<0|1>` (`set_do_heatbath`), `loops:<0|1>` (`set_do_loop_updates`), `step` (time steps; the only
+modelled field they touch is the lazily built heat-bath table), `clone:<continue on the clone 0|1>`.
+One output token per event: a letter (`A`/`E` accepted / rejected call, `P` = panic, `o` option setter,
+`s` step, `k` clone) and the fields
+`<#bonds>:<offset>:<has_cluster_edges>:<breaks_ising_symmetry>:<non_const_diags>:<bond_weights>:<do_heatbath>:<do_loop_updates>`
+(`bond_weights` = `none` or the per-bond maximal diagonal weights). -/
 
 def showQState (s : QmcCtor.State) : String :=
-  s!"{s.bonds.length}:{showRat s.offset}:{showBool s.hasClusterEdges}:{showBool s.breaksIsing}:{showNats s.nonConstDiags}:{showBool s.bondWeights.isSome}"
+  let bw := match s.bondWeights with
+    | none => "none"
+    | some t => showRats t
+  s!"{s.bonds.length}:{showRat s.offset}:{showBool s.hasClusterEdges}:{showBool s.breaksIsing}:{showNats s.nonConstDiags}:{bw}:{showBool s.doHeatbath}:{showBool s.doLoopUpdates}"
 
 def kindOf (variant : String) : Option QmcCtor.Kind :=
   match variant with
@@ -47,9 +52,15 @@ def kindOf (variant : String) : Option QmcCtor.Kind :=
 def qmcEvent (s : QmcCtor.State) (ev : String) : String × QmcCtor.State :=
   match ev.splitOn ":" with
   | ["clone", _] => ("k:" ++ showQState s, s)
-  | ["step", hb] =>
-    let s' := QmcCtor.ensureWeights s (hb == "1") []
+  | ["step"] =>
+    let s' := QmcCtor.runEvent s .step
     ("s:" ++ showQState s', s')
+  | ["hb", b] =>
+    let s' := QmcCtor.runEvent s (.setHeatbath (b == "1"))
+    ("o:" ++ showQState s', s')
+  | ["loops", b] =>
+    let s' := QmcCtor.runEvent s (.setLoops (b == "1"))
+    ("o:" ++ showQState s', s')
   | [variant, mat, vars] =>
     match kindOf variant with
     | some k =>
@@ -68,9 +79,9 @@ def qmcEvents (s : QmcCtor.State) : List String → List String
 
 def step (toks : List String) : String :=
   match toks with
-  | "qmcctor" :: nvars :: evs =>
+  | "qmcctor" :: nvars :: loops :: evs =>
     let evs := evs.filter (· ≠ "-")
-    let outs := qmcEvents (QmcCtor.State.init (parseNat nvars)) evs
+    let outs := qmcEvents (QmcCtor.State.init (parseNat nvars) (loops == "1")) evs
     if outs.isEmpty then "-" else String.intercalate " " outs
   -- kind `afterconv` (F32: interactions added after `into_qmc`, then sampled): the oracle is model-free
   -- (no panic, operator string consistent, per-bond counters = direct count); the model's statement is
